@@ -445,6 +445,40 @@ def report_failure(ctx, exe, spec, c, vf, problems, alt, only_alt=False):
                       found_input=False)
 
 
+def run_corpus(ctx, exe):
+    """deterministic corpus (corpus/C03/*.json: minimal replays of the recorded findings), run first in both tiers and judged
+    with the same attribution rules as generated cases; an entry that no longer reproduces simply prints nothing"""
+    cdir = vlib.ROOT / "corpus" / "C03"
+    n = 0
+    for f in sorted(cdir.glob("*.json")) if cdir.exists() else []:
+        data = json.loads(f.read_text())
+        spec, text = data["spec"], data["input"]
+        res = run_batch(ctx, exe, [(0, data["db"], text)])
+        c = res[0]
+        n += 1
+        if c["errors"] != 0 or not c.get("done"):
+            continue
+        rl = evaluate(ctx, res).get(0, [])
+        problems, st, alt = direct_oracle(spec, c)
+        vf = [r for r in rl if r[0] == "V" and not r[4] and r[2] != "valid-alt"]
+        if st["neg"]:
+            vf = [r for r in vf if not (r[2].startswith("valid") and -1e-12 < r[5] < 0)]
+        tf = [r for r in rl if r[0] == "T" and not r[4]]
+        replay = {"spec": spec, "db": data["db"], "input": text, "corpus": f.name}
+        if problems or vf:
+            ctx.violation("corpus case violates the property beyond its recorded finding: " +
+                          (problems[0] if problems else f"{vf[0][2]} {vf[0][3]}"), dict(replay, oracle=problems[:5]))
+            continue
+        if tf:
+            ctx.violation("corpus case: model/code correspondence broken", dict(replay, correspondence=[t[:4] for t in tf[:5]]),
+                          found_input=False)
+            continue
+        for key, msgs in ((KEY_ALT, alt), (KEY_REL, st["rel"]), (KEY_PREC, st["prec"]), (KEY_NEG, st["neg"]), (KEY_RETRY, st["retry"])):
+            if msgs:
+                ctx.finding(key, msgs[0], dict(replay, oracle=msgs[:5]))
+    ctx.cov["corpus_cases"] = n
+
+
 def run(ctx):
     ok = ctx.prove([NAME])
     ctx.build_lib()
@@ -452,6 +486,7 @@ def run(ctx):
     n = ctx.n(400, 12000)
     if not ok:
         n = max(n, 6000)
+    run_corpus(ctx, exe)
     dbi = {db: db_info(ctx, exe, db) for db in gen.DBS}
     ctx.cov["db_phases"] = {db: len([1 for p in v["phases"].values() if not p["gas"]]) for db, v in dbi.items()}
     specs = [gen.gen_case(ctx.rng, i, dbi) for i in range(n)]
